@@ -139,7 +139,14 @@ HashSweep == UNION { { [Pid1 EXCEPT !.loc = HashWith(p, x)] : p \in 1..8 }
                      \cup { [VPort(Node1, <<0,0,0,0,0,0,0,5>>, <<0,0,0,1>>, <<>>) EXCEPT !.loc = HashWith(p, x)] : p \in {1, 2, 8} }
                      \cup { [VRef(Node1, <<0,0,0,2>>, <<<<0,0,0,1>>, <<0,0,0,2>>>>, <<>>) EXCEPT !.loc = HashWith(p, x)] : p \in {1, 2, 8} } : x \in 0..255 }
 IdSweepAll == IdSweep \cup { [i EXCEPT !.loc = <<9,8,7,6,5,4,3,2>>] : i \in IdSweep } \cup HashSweep
-IdUniverse == UNION { InContexts(i) : i \in IdPlain \cup IdLocal } \cup IdSweepAll \cup { VTuple(<<SmallInt(1), i>>) : i \in IdSweepAll }
+Twin(i) == IF i.loc = <<>> THEN [i EXCEPT !.loc = <<9,8,7,6,5,4,3,2>>] ELSE [i EXCEPT !.loc = <<>>]
+OtherHash(h) == [k \in 1..Len(h) |-> IF k = Len(h) THEN (h[k] + 1) % 256 ELSE h[k]]
+Twins(i) == IF i.loc = <<>> THEN {Twin(i)} ELSE {Twin(i), [i EXCEPT !.loc = OtherHash(i.loc)]}
+\* an identifier next to its twin (the same identifier in another form, == to it): what is written for one must not depend on its neighbour
+OkA == A(<<111,107>>)
+TwinNeighbours == UNION { UNION { { VList(<<i, t>>, VNil), VList(<<t, i>>, VNil), VList(<<VTuple(<<OkA, i>>), VTuple(<<OkA, t>>)>>, VNil), VTuple(<<i, t>>), VList(<<i, t, i>>, VNil),
+                                    VMap(<< <<SmallInt(1), i>>, <<SmallInt(2), t>> >>) } : t \in Twins(i) } : i \in IdPlain \cup IdLocal }
+IdUniverse == UNION { InContexts(i) : i \in IdPlain \cup IdLocal } \cup IdSweepAll \cup { VTuple(<<SmallInt(1), i>>) : i \in IdSweepAll } \cup TwinNeighbours
 \* node-local form wrapping the encoding the peer happened to use for the identifier (legacy / 32-bit tags):
 \* records [v |-> value, enc |-> bytes]; re-encoding must give these bytes back
 WrapCtx(b) == { <<131>> \o b, <<131, 104, 2, 97, 1>> \o b, <<131, 108, 0, 0, 0, 1, 97, 1>> \o b, <<131, 116, 0, 0, 0, 1>> \o b \o <<106>>, <<131, 116, 0, 0, 0, 1, 106>> \o b }
@@ -150,10 +157,7 @@ LocH == <<9,8,7,6,5,4,3,2>>
 LocalAltVectors == UNION { { [v |-> CtxVal(k, [i EXCEPT !.loc = LocH]), enc |-> CtxBytes(k, <<121>> \o LocH \o a[2]), alts |-> <<>>, why |-> "LOCAL_EXT around " \o a[1]] :
                                a \in Alts(i), k \in 1..5 } : i \in IdPlain }
 \* the same logical identifier in its other form (plain <-> local with the first hash)
-Twin(i) == IF i.loc = <<>> THEN [i EXCEPT !.loc = <<9,8,7,6,5,4,3,2>>] ELSE [i EXCEPT !.loc = <<>>]
 \* every other form of the same logical identifier: plain <-> local, and local <-> local with another opaque hash
-OtherHash(h) == [k \in 1..Len(h) |-> IF k = Len(h) THEN (h[k] + 1) % 256 ELSE h[k]]
-Twins(i) == IF i.loc = <<>> THEN {Twin(i)} ELSE {Twin(i), [i EXCEPT !.loc = OtherHash(i.loc)]}
 
 \* a different logical identifier that agrees with i in all fields but one (must be told apart by ==, cmp, sets and as a map key)
 Bump(w) == [k \in 1..Len(w) |-> IF k = Len(w) THEN (w[k] + 1) % 256 ELSE w[k]]
